@@ -235,24 +235,24 @@ def svgAttrMap (k : Str) : Option QualName :=
 def mathmlAttrMap (k : Str) : Option QualName :=
   if isName k "definitionurl" then some (plainName "definitionURL".toList) else none
 
-/-- `adjust_foreign_attributes`: (local name of the token, prefix, namespace, local); an empty prefix
-string is `qualname!`'s "no prefix" -/
-def foreignAttrTable : List (String × String × Str × String) := [
-  ("xlink:actuate", "xlink", nsXlink, "actuate"),
-  ("xlink:arcrole", "xlink", nsXlink, "arcrole"),
-  ("xlink:href", "xlink", nsXlink, "href"),
-  ("xlink:role", "xlink", nsXlink, "role"),
-  ("xlink:show", "xlink", nsXlink, "show"),
-  ("xlink:title", "xlink", nsXlink, "title"),
-  ("xlink:type", "xlink", nsXlink, "type"),
-  ("xml:lang", "xml", nsXml, "lang"),
-  ("xml:space", "xml", nsXml, "space"),
-  ("xmlns", "", nsXmlns, "xmlns"),
-  ("xmlns:xlink", "xmlns", nsXmlns, "xlink")]
+/-- `adjust_foreign_attributes`: (local name of the token, prefix, namespace, local).
+`qualname!("p" ns "l")` has `prefix: Some("p")`, `qualname!("" ns "l")` (the `xmlns` row) `prefix: None` -/
+def foreignAttrTable : List (String × Option String × Str × String) := [
+  ("xlink:actuate", some "xlink", nsXlink, "actuate"),
+  ("xlink:arcrole", some "xlink", nsXlink, "arcrole"),
+  ("xlink:href", some "xlink", nsXlink, "href"),
+  ("xlink:role", some "xlink", nsXlink, "role"),
+  ("xlink:show", some "xlink", nsXlink, "show"),
+  ("xlink:title", some "xlink", nsXlink, "title"),
+  ("xlink:type", some "xlink", nsXlink, "type"),
+  ("xml:lang", some "xml", nsXml, "lang"),
+  ("xml:space", some "xml", nsXml, "space"),
+  ("xmlns", none, nsXmlns, "xmlns"),
+  ("xmlns:xlink", some "xmlns", nsXmlns, "xlink")]
 
 def foreignAttrMap (k : Str) : Option QualName :=
   (foreignAttrTable.find? (fun r => r.1.toList == k)).map
-    (fun r => { pfx := if r.2.1 = "" then none else some r.2.1.toList, ns := r.2.2.1, loc := r.2.2.2.toList })
+    (fun r => { pfx := r.2.1.map String.toList, ns := r.2.2.1, loc := r.2.2.2.toList })
 
 /-- `adjust_attributes(tag, map)`: the map sees the *local* name only -/
 def adjustAttributes (map : Str → Option QualName) (tag : Tag) : Tag :=
